@@ -657,7 +657,7 @@ class Gen:
         for i, name in enumerate(names):
             target = names[(i + 1) % n]
             flavour = rng.choice(["dataclass", "dataclass", "dc_slots", "namedtuple", "typeddict_partial", "plain", "dc_kwonly"])
-            edge = rng.choice(["optional", "optional", "list", "dict", "tuplevar", "pipe"])
+            edge = rng.choice(["optional", "optional", "list", "dict", "tuplevar", "pipe", "nonefirst"])
             fields = []
             if rng.random() < 0.8:
                 fields.append(["val", self.type(min(depth - 1, 1), no_rec=True), None])
@@ -686,6 +686,11 @@ class Gen:
             if self.prog.future:
                 return self.prog_spec_noeval("union", f"{ref} | None", [rec], none_pos=1, nmembers=2, spelling="pipe", order=[0, None])
             return self.prog_spec_noeval("union", f"typing.Union[{ref}, None]", [rec], none_pos=1, nmembers=2, spelling="Union", order=[0, None])
+        if edge == "nonefirst":
+            # None declared first
+            if self.prog.future:
+                return self.prog_spec_noeval("union", f"None | {ref}", [rec], none_pos=0, nmembers=2, spelling="pipe", order=[None, 0])
+            return self.prog_spec_noeval("union", f"typing.Union[None, {ref}]", [rec], none_pos=0, nmembers=2, spelling="Union", order=[None, 0])
         if edge == "list":
             return self.prog_spec_noeval("coll", f"list[{ref}]", [rec], ctor="list", cls=list)
         if edge == "dict":
